@@ -95,6 +95,14 @@ def rule_enc(ctx):
                f"encoder writes `{src(e)}`, which is none of code+'-'+line / code+' '+line / ' '+line "
                "(a body line not prefixed by a non-digit is decoded as a reply header; a joined body loses the per-line prefix)",
                construct=f"write_response:form {desc}")
+        # position: every line but the last one of a reply is marked as "more follows" - inside the body loop only code+'-' / ' ' forms, the code+' ' form only
+        # for the very last write
+        if kind == "last":
+            ctx.ob("C06.ENC", c, "the code+' ' (final line) form is written outside the body loop", in_loop is None,
+                   f"the encoder writes body lines as `{src(e)}` - the FINAL-line form: the client ends the reply at the first of them and reads the rest as the next reply",
+                   construct="write_response:final form inside the body loop")
+        if in_loop is not None and kind not in ("continuation", "body", "last"):
+            pass
         if kind in ("continuation", "body", "last"):
             text = parts[-1]
             # the text written is one element of the lines: the loop variable of a loop over the body, or head/tail names
